@@ -94,6 +94,15 @@ func Families(tier string, seed int64) []*spec.Program {
 		out = append(out, v)
 	}
 	{
+		// "Gamma" is not selected, "XGamma" and "AlphaBeta" are: a name that is a suffix / prefix of a selected one
+		v := variant(base, "f_multi_selsfx", "selection", "C01", "C12")
+		v.Spec.Messages = append(v.Spec.Messages, M("XGamma", nil, F("Label", "string"), F("N", "int32")), M("AlphaBeta", nil, F("Q", "string")))
+		v.Config.Types = []string{"XGamma", "AlphaBeta"}
+		v.Config.RequiredFields, v.Config.ComputedFields = nil, nil
+		v.NoRun = true
+		out = append(out, v)
+	}
+	{
 		v := variant(base, "f_multi_extra", "extension", "C01", "C12")
 		v.Spec.Messages = append([]spec.Msg{M("Unrelated1", nil, F("X", "string"), F("Y", "map:int64"))}, v.Spec.Messages...)
 		v.Spec.Messages = append(v.Spec.Messages, M("Unrelated2", []string{"Z"}, F("A", "bool", oneof(0)), F("B", "msg:Unrelated1", oneof(0))))
@@ -386,6 +395,14 @@ func Families(tier string, seed int64) []*spec.Program {
 			ex.Unmappable, ex.UnmappableRoots = "", nil
 			ex.NoRun = true
 			out = append(out, ex)
+		}
+	}
+
+	// ---- C11: options addressed by <Message>.<field> to the fields of a message embedded directly in a root
+	for _, a := range Atlas() {
+		if a.ID == "a_embed" {
+			v := variant(a, "a_embed_opt", "option-embedded", "C11")
+			out = append(out, v)
 		}
 	}
 
